@@ -295,6 +295,15 @@ def main(tier):
             jobs.append(("dsort", ["-i", s], "b 2012-03-06\n" + s + "\na 2011-01-01\n", "input format"))
             jobs.append(("dzone", ["-f", s, "Europe/Berlin", "2012-03-06T10:11:12"], None, "format"))
             jobs.append(("strptime", ["-i", s, "-f", s, "2012-03-06"], None, "format"))
+        # every modifier x specifier letter, alone and at the edge of the 256-byte line buffers, through every formatting tool
+        modspecs = ["%" + m + c for m in ("", "_", "0", " ", "-", "r", "O", "_0", "-0", "O-") for c in "YymdjDwucCUVWGgqQaAbBhHIMSNpPTFsZ"]
+        for s in modspecs:
+            for pre in ("", "x" * 254, "x" * 250):
+                jobs.append(("ddiff", ["-f", pre + s, "2012-01-01T00:00:00", "2012-03-01T01:02:03"], None, "duration format"))
+                jobs.append(("ddiff", ["-f", pre + s + "|%d", "2012-03-01", "2012-01-01"], None, "duration format"))
+                if pre != "x" * 250 or not quick:
+                    jobs.append(("dconv", ["-f", pre + s, "2012-03-06T10:11:12"], None, "format"))
+                    jobs.append(("dadd", ["-f", pre + s, "2012-03-06T10:11:12", "+1d"], None, "format"))
         # backslash escapes (-e): formats ending in a backslash or in an incomplete escape
         for s in ["abc\\", "\\", "%F\\", "a\\tb\\", "\\\\\\", "x\\q\\", "%Y\\n%m\\"] + [h for h in hostile[:60]]:
             jobs.append(("dconv", ["-e", "-f", s + ("\\" if not s.endswith("\\") else ""), "2012-03-06T10:11:12"], None, "escaped format"))
